@@ -324,7 +324,9 @@ PROPS["C09"] = dict(
     design_ref="DESIGN.md §4 C09",
     assumptions=["A-DRF for the planner's goroutines"],
     stubs=["encoding/json, reflect.TypeOf(x).String(): engine models"],
-    quick=[c09(3, 2, 0), c09(0, 1, 1), c09b(0, 0)],
+    quick=[c09(3, 2, 0), c09(0, 1, 1), c09b(0, 0),
+           spec("H-C09c", "./pkg/engine/datasource/graphql_datasource", C09H, "VerifC09History", [],
+                "two plans in a row on one process, each solver-chosen from 4 operations of which one is rejected inside the data source planner (conflicting field types in a subgraph SDL); sync.Pool hands back what was put (engine option pool_reuse), so pooled planner helpers carry state from the first plan into the second; the second plan (success/failure and digest) must equal the plan of a fresh process", ["second plan succeeds", "second plan fails"], pool_reuse=True)],
     thorough=[c09(0, 2, 1, 1, 3000), c09(1, 1, 1, 1, 3000), c09(2, 1, 1, 1, 3000), c09b(5, 0, 3000), c09b(0, 1, 3000)],
 )
 
